@@ -16,7 +16,7 @@ THEOREMS += [("FlatModel.Props.C14c", t) for t in (
     "FC.lawfulItems_mirror", "FC.lawfulItems_owned", "FC.lawfulItems_vec", "FC.lawfulItems_codec", "FC.lawfulItems_tupleNil", "FC.lawfulItems_string", "FC.lawfulItems_option", "FC.lawfulItems_result", "FC.lawfulItems_tupleCons", "FC.lawfulItems_slice", "FC.lawfulItems_columns", "FC.lawfulItems_collapse", "FC.lawfulItems_consec", "FC.lawfulItems_flatStack", "FC.lawfulItems_huffman", "FC.lawfulItems_huffU8")]
 # every catalogued composition: the item model the driver answers through obeys `LawfulItemOps` (bridge to `index`)
 LEAN_TARGETS = ["FlatModel.Generated.CoveredItems"]
-PROFILES = {"quick": ["checked"], "thorough": ["checked", "wrapping"], "search": ["checked"]}
+PROFILES = {"quick": ["checked", "wrapping"], "thorough": ["checked", "wrapping"], "search": ["checked"]}
 RULE = ("every read item of every catalogue entry: into_owned == pushed value; borrow_as(&into_owned(x)) renders / iterates equal "
         "to x; clone_onto(x, t) for prior targets t (empty, shorter, longer, other variant, nested, equal) leaves t == into_owned(x); "
         "reborrow(x) == x; pushing x itself (region-backed) or a borrow of its owned form into another region of the same type reads "
